@@ -110,7 +110,7 @@ def execute(scn, want_log=False):
     states = set()
     probes = {}
     judged = 0
-    prev = 'start'
+    prevs = {}
 
     def bump(p):
         probes[p] = probes.get(p, 0) + 1
@@ -131,6 +131,7 @@ def execute(scn, want_log=False):
             shell = shells[key]
             i = counts[cid]
             counts[cid] += 1
+            prev = prevs.get(cid, 'start')
             cur['outcome'] = st['outcome']
             cur['left'] = st.get('r', 0)
             first = len(sim.log)
@@ -204,7 +205,7 @@ def execute(scn, want_log=False):
                     }
                 )
                 break
-            prev = st['outcome']
+            prevs[cid] = st['outcome']
 
     out = {
         'violations': violations,
